@@ -445,6 +445,10 @@ func (m *Manager) createCanaryService(c *TrafficRoutingContext, cService string,
 	canaryService.Spec.IPFamilyPolicy = nil
 	canaryService.Spec.IPFamilies = nil
 	canaryService.Spec.LoadBalancerIP = ""
+	// the stable service may have no selector at all
+	if canaryService.Spec.Selector == nil {
+		canaryService.Spec.Selector = map[string]string{}
+	}
 	canaryService.Spec.Selector[c.RevisionLabelKey] = c.CanaryRevision
 
 	// avoid port conflicts for NodePort-type service
